@@ -152,6 +152,8 @@ package netpoll
 //@ ghost global hReadall bool
 //@ ghost global hLastSent int
 //@ ghost global hOutPending bool
+// the wake-up descriptor delivered the close message (first byte of the eventfd counter non-zero) in this batch
+//@ ghost global hSawClose bool
 
 // the callbacks of a registered FDOperator (fd_operator.go): assumed contracts for operators supplied by users of the Poll API;
 // netpoll's own operators (connection.inputs/inputAck/outputs/outputAck/onHup, server.OnRead) satisfy them
@@ -220,11 +222,21 @@ package netpoll
 //@   requires operator.detached >= 0 && operator.detached < 2147483000
 //@   ensures !operator.opheld && operator.detached == old(operator.detached) + 1 && len(p.hups) == old(len(p.hups)) + 1
 //@   ensures forall o *FDOperator :: o != operator ==> o.opheld == old(o.opheld)
+//@   ensures p.hups[len(p.hups) - 1] == old(operator.OnHup)
 //@   modifies p.hups, operator.detached, FDOperator.state, operator.opheld, mem:*
 
 //@ func (*defaultPoll).onhups
 //@   property C11
+//@   ensures len(p.hups) == 0
 //@   modifies p.hups
+// the hang-up goroutine: every queued callback is invoked once, in order
+//@ ghost global hupCalls int
+//@ func (*defaultPoll).onhups$1
+//@   property C11
+//@   ensures hupCalls <= old(hupCalls) + len(onhups)
+//@   modifies hupCalls
+//@   loop 1 invariant -1 <= rangeindex && rangeindex < len(onhups) && hupCalls <= old(hupCalls) + rangeindex + 1
+//@   ghost before call dyn#1: hupCalls = hupCalls + 1
 
 // readall: drains the descriptor after a hang-up; every ioread result is acknowledged before the next Inputs
 //@ func readall
@@ -252,11 +264,13 @@ package netpoll
 //@   ensures !hPendingAck && !hOutPending
 //@   ensures closed ==> !p.live && !fdopen[p.fd] && !fdopen[old(p.wop.FD)] && closecnt[p.fd] == old(closecnt[p.fd]) + 1 && closecnt[old(p.wop.FD)] == old(closecnt[p.wop.FD]) + 1
 //@   ensures !closed ==> p.live && fdopen[p.fd] && fdopen[p.wop.FD]
-//@   modifies world, p.hups, p.trigger, p.live, FDOperator.opheld, FDOperator.state, FDOperator.detached, fdopen, closecnt, mem:*, hAcked, hLastRead, hPendingAck, hReadall, hLastSent, hOutPending
-//@   loop 1 invariant -1 <= rangeindex && forall o *FDOperator :: !o.opheld
+//@   ensures hSawClose ==> closed
+//@   modifies world, p.hups, p.trigger, p.live, FDOperator.opheld, FDOperator.state, FDOperator.detached, fdopen, closecnt, mem:*, hAcked, hLastRead, hPendingAck, hReadall, hLastSent, hOutPending, hSawClose
+//@   loop 1 invariant -1 <= rangeindex && !hSawClose && forall o *FDOperator :: !o.opheld
 //@   loop 1 invariant !hPendingAck && !hOutPending && p.live && fdopen[p.fd] && fdopen[p.wop.FD] && p.fd != p.wop.FD && p.wop.FD == old(p.wop.FD)
 //@   loop 1 invariant closecnt[p.fd] == old(closecnt[p.fd]) && closecnt[p.wop.FD] == old(closecnt[p.wop.FD])
-//@   ghost at entry: hPendingAck = false; hOutPending = false
+//@   ghost at entry: hPendingAck = false; hOutPending = false; hSawClose = false
+//@   ghost after call syscall.Read#1: hSawClose = p.buf[0] > 0
 //@   note a registered slot (state 1, so that do() succeeds) other than the poller's own eventfd slot was registered through FDOperator.Control, which requires poll != nil,
 //@     and is reset only after unused(); the detach counter is far from wrapping when the event is fetched
 //@   ghost after call (*defaultPoll).getOperator#1: assume result == nil || (result.detached >= 0 && result.detached < 2147483000)
@@ -343,7 +357,7 @@ package netpoll
 //@   ensures forall o *FDOperator :: !o.opheld
 //@   ensures err == nil ==> !p.live && !fdopen[p.fd] && !fdopen[old(p.wop.FD)]
 //@   ensures !hFetched
-//@   modifies world, p.size, p.caps, p.events, p.barriers, barrier.bs, barrier.ivs, epollevent.events, epollevent.data, p.hups, p.trigger, p.live, FDOperator.opheld, FDOperator.state, FDOperator.detached, fdopen, closecnt, mem:*, hAcked, hLastRead, hPendingAck, hReadall, hLastSent, hOutPending, hFetched
+//@   modifies world, p.size, p.caps, p.events, p.barriers, barrier.bs, barrier.ivs, epollevent.events, epollevent.data, p.hups, p.trigger, p.live, FDOperator.opheld, FDOperator.state, FDOperator.detached, fdopen, closecnt, mem:*, hAcked, hLastRead, hPendingAck, hReadall, hLastSent, hOutPending, hFetched, hSawClose
 //@   loop 1 invariant p.size == len(p.events) && p.size == len(p.barriers) && p.size >= 128 && n <= p.size && !hFetched && !p.opcache.ocl && !p.opcache.ofl
 //@   loop 1 invariant forall k int :: 0 <= k && k < len(p.barriers) ==> len(p.barriers[k].bs) == len(p.barriers[k].ivs)
 //@   loop 1 invariant forall o *FDOperator :: !o.opheld
@@ -440,3 +454,20 @@ package netpoll
 //@   loop 1 invariant forall j int, k int {c.freelist[j], c.freelist[k]} :: 0 <= j && j < k && k < len(c.freelist) ==> c.freelist[j] != c.freelist[k]
 //@   loop 1 invariant forall o *FDOperator :: o.owned == old(o.owned) && (o.slot == old(o.slot) || (old(o.slot) == 2 && o.slot == 0 && o.cacheof == c))
 //@   ghost after store first#1: op.slot = 0; op.rank = ite(op.next == nil, 1, op.next.rank + 1)
+
+// ---- creating a poller: both descriptors or none (C15), lock invariants of the new slot cache established (C10) ----
+//@ func newOperatorCache
+//@   property C10
+//@   ensures result != nil && fresh(result) && ocL(result) && ocF(result) && !result.ocl && !result.ofl && result.locked == 0 && result.freelocked == 0
+//@   ghost at return: assume forall o *FDOperator {o.cacheof} :: o.cacheof != result
+//@   note a new cache is nobody's cacheof (ghost back-pointer of slots that exist already)
+
+//@ func openDefaultPoll
+//@   property C10 C11 C15
+//@   results poll err
+//@   ensures err == nil ==> poll != nil && fresh(poll) && poll.live && poll.wop != nil && len(poll.buf) >= 1 && poll.opcache != nil && !poll.opcache.ocl && !poll.opcache.ofl
+//@   ensures err == nil ==> fdopen[poll.fd] && fdopen[poll.wop.FD] && poll.fd != poll.wop.FD && !old(fdopen)[poll.fd] && !old(fdopen)[poll.wop.FD]
+//@   ensures err == nil ==> forall x int :: x != poll.fd && x != poll.wop.FD ==> fdopen[x] == old(fdopen[x])
+//@   ensures err != nil ==> poll == nil && forall x int :: fdopen[x] == old(fdopen[x])
+//@   modifies fdopen, closecnt, FDOperator.state
+//@   ghost after store opcache#1: poll.live = true
